@@ -230,12 +230,10 @@ def realise(hist, variant, scale, kind='Server', spare=0):
                 out.append(('R', ('transient', TRANSIENT[(variant + j) % len(TRANSIENT)])))
                 j += 1
             elif k == 'fatal':
-                out.append(('R', ('fatal', 'EPIPE' if kind == 'Client' else FATAL[(variant + j) % len(FATAL)])))
+                out.append(('R', ('fatal', FATAL[(variant + j) % len(FATAL)])))
                 j += 1
             else:
-                if kind != 'Client':
-                    return None
-                out.append(('R', ('fatal', 'ECONNRESET')))
+                return None     # "fatalkeep": the pinned Client's reaction to ECONNRESET, a defect generator only
         elif op == 'C':
             out.append(('C',))
         elif op == 'E':
@@ -392,6 +390,9 @@ def run(tier, replay=None):
     gen = tlc.run_tlc(SPEC, 'WriteBuf', 'MC_WriteBuf_drop.cfg')
     if not gen.violated:
         raise tlc.MachineryError('the "drop" variant of WriteBuf.tla no longer violates C11: the model lost its teeth')
+    gen3 = tlc.run_tlc(SPEC, 'WriteBuf', 'MC_WriteBuf_fatalkeep.cfg')
+    if not gen3.violated:
+        raise tlc.MachineryError('the "fatalkeep" deviation of WriteBuf.tla no longer violates C11: the model lost its teeth')
     gen2 = tlc.run_tlc(SPEC, 'WriteBuf', 'MC_WriteBuf_eofdiscard.cfg')
     if not gen2.violated:
         raise tlc.MachineryError('the "eofdiscard" variant of WriteBuf.tla no longer violates C11: the model lost its teeth')
